@@ -441,7 +441,7 @@ def generate(template, out_verus, out_raw=None, out_meta=None):
         body = unsplice(body, table)
         meta['dropped_hints'] = fn.get('dropped_hints', [])
         meta['contract_lines'] = len([x for x in fn['sig'] if x.strip()])
-        start_line = sum(x.count('\n') + 1 for x in out) + 1
+        start_line = sum(x.count('\n') + 1 for x in out) + 2
         text = '\n'.join(fn['sig']) + '\n{\n' + '\n'.join(fn['pre']) + '\n' + body + '\n' + '\n'.join(fn['post']) + '\n}\n'
         meta['gen_line_start'] = start_line
         meta['gen_line_end'] = start_line + text.count('\n')
@@ -451,7 +451,7 @@ def generate(template, out_verus, out_raw=None, out_meta=None):
         out.append(text)
         raws.append((fn['id'], ex['raw']))
         metas.append(meta)
-    text = '\n'.join(out)
+    text = '#![feature(allocator_api)]\n' + '\n'.join(out)
     os.makedirs(os.path.dirname(out_verus), exist_ok=True)
     open(out_verus, 'w').write(text)
     if out_raw:
